@@ -203,7 +203,9 @@ pub fn run() {
     let quick = ctx.quick();
     let mut fam = BTreeMap::new();
     let mut all = Out::default();
-    let sentences: Vec<String> = corpus::sentence_lines(!quick).iter().map(|l| corpus::wrap(l)).collect();
+    // quick: every family in full except the multi-line product (every 2nd / 6th shape);
+    // thorough: the full multi-line product, all short strings, mutated repository programs, C02's layout programs
+    let sentences: Vec<String> = corpus::sentence_lines(true).iter().map(|l| corpus::wrap(l)).collect();
     run_family("sentences", &sentences, &mut fam, &mut all);
     run_family("line-shapes", &corpus::shape_programs(), &mut fam, &mut all);
     run_family("label-rules", &corpus::label_programs(), &mut fam, &mut all);
@@ -215,9 +217,9 @@ pub fn run() {
     // two- and three-line programs out of the accepted single lines (reduced shapes)
     let shapes = crate::c02::shapes(false);
     let mut multi = vec![];
-    let st = if quick { 9 } else { 2 };
+    let (st, st2) = if quick { (2, 6) } else { (1, 1) };
     for (i, a) in shapes.iter().enumerate().step_by(st) {
-        for (j, b) in shapes.iter().enumerate().step_by(st * 3) {
+        for (j, b) in shapes.iter().enumerate().step_by(st2) {
             multi.push(format!("{}LBL:\n {} ; first\n.EQU lbl2 7\n{}", HDR, a, b));
             if (i + j) % 5 == 0 {
                 multi.push(format!("{}LBL: ; l\n {}\n\n {}\n.EQU lbl2 7 ; e\n; tail", HDR, b, a));
@@ -225,6 +227,17 @@ pub fn run() {
         }
     }
     run_family("multi-line", &multi, &mut fam, &mut all);
+    if !quick {
+        run_family("short-strings", &corpus::short_strings(5), &mut fam, &mut all);
+        let mut muts = vec![];
+        for src in repo.iter().filter(|s| s.len() < 900) {
+            muts.extend(corpus::mutations(src, &corpus::MUT_VOCAB));
+        }
+        run_family("mutated-repository-programs", &muts, &mut fam, &mut all);
+        let lay = crate::c02::layout_programs(2, &crate::c02::shapes(true));
+        run_family("shapes-after-directive-prefixes", &lay, &mut fam, &mut all);
+        run_family("limit-directives", &crate::c02::limit_programs(), &mut fam, &mut all);
+    }
     for (k, (n, cases)) in &all.bad {
         for (l, w) in cases.iter().take(3) {
             ctx.violation(k.clone(), format!("{} ({} programs in class)", w, n), l.clone());
